@@ -489,7 +489,7 @@ def check(run):
                 "Field/apply accept every constraint keyword and forward it under its own name.")
     C = run.repo.cls("utype.parser.rule", "Constraints")
     names = constraint_names(run)
-    run.floor("R02a", "constraints declared in Rule.__constraints__", len(names), 14)
+    run.floor("R02a", "constraints declared in Rule.__constraints__", len(names), 12)
     r02a(run, C, names)
     r02_contains(run)
     r02b(run, C, names)
